@@ -224,6 +224,9 @@ func (z *Ser) write(b *strings.Builder, n Node) {
 // *Stmt node the same *jen.Statement.
 type Builder struct {
 	stmts  map[*Stmt]*jen.Statement
+	// StmtHook, when set, builds statements instead of the default chained-method build (the
+	// C14 form-choosing builder of forms.go plugs in here and does its own memoising).
+	StmtHook func(st *Stmt) *jen.Statement
 }
 
 func NewBuilder() *Builder {
@@ -270,6 +273,9 @@ func (bd *Builder) codes(items []Node) []jen.Code {
 
 // Stmt builds a statement by chaining the *Statement method for every item.
 func (bd *Builder) Stmt(st *Stmt) *jen.Statement {
+	if bd.StmtHook != nil {
+		return bd.StmtHook(st)
+	}
 	if s, ok := bd.stmts[st]; ok {
 		return s
 	}
